@@ -46,6 +46,8 @@ struct Resolver {
     temp_marks: BTreeSet<Id>,
     docs: BTreeMap<Id, String>,
     categories: BTreeMap<Id, String>,
+    /// Element symbol to the substance that declares it.
+    symbols: BTreeMap<String, Id>,
     errors: Vec<String>,
 }
 
@@ -104,6 +106,28 @@ impl Resolver {
                 let name = &Rc::new(name[0..name.len() - 1].to_owned());
                 self.lookup_with_prefix(name, context)
             }
+            || self.lookup_formula(name)
+    }
+
+    /// An element symbol or a chemical formula depends on the substances
+    /// that declare its symbols.
+    fn lookup_formula(&mut self, name: &str) -> bool {
+        let ids = match crate::parsing::formula::formula_symbols(name) {
+            Some(symbols) => symbols
+                .iter()
+                .map(|symbol| self.symbols.get(symbol).cloned())
+                .collect::<Option<Vec<Id>>>(),
+            None => None,
+        };
+        match ids {
+            Some(ids) => {
+                for id in ids {
+                    self.visit(&id);
+                }
+                true
+            }
+            None => false,
+        }
     }
 
     fn eval(&mut self, expr: &Expr, context: Namespace) {
@@ -301,6 +325,7 @@ pub(crate) fn load_defs(ctx: &mut Context, defs: Defs) -> Vec<String> {
         temp_marks: BTreeSet::new(),
         docs: BTreeMap::new(),
         categories: BTreeMap::new(),
+        symbols: BTreeMap::new(),
         errors: Vec::new(),
     };
     for DefEntry {
@@ -344,6 +369,13 @@ pub(crate) fn load_defs(ctx: &mut Context, defs: Defs) -> Vec<String> {
                 name,
             },
         };
+        if let Def::Substance {
+            symbol: Some(ref symbol),
+            ..
+        } = *def
+        {
+            resolver.symbols.insert(symbol.clone(), id.clone());
+        }
         if let Some(doc) = doc {
             resolver.docs.insert(id.clone(), doc);
         }
